@@ -76,6 +76,8 @@ type Sim struct {
 	tasks             []*Task
 	goids             map[int64]*Task
 	tickers           []*Ticker
+	nExternal         int
+	nHarness          int
 	rootGo            int64
 
 	tapePos int
@@ -153,7 +155,8 @@ func (s *Sim) Tasks() []*Task { return s.tasks }
 // Go starts a new task. It may be called by the root before Run or by a running task.
 func (s *Sim) Go(name string, f func()) *Task {
 	s.mu.Lock()
-	t := &Task{ID: len(s.tasks), Name: name, Holding: map[string]int{}}
+	t := &Task{ID: s.nHarness, Name: name, Holding: map[string]int{}}
+	s.nHarness++
 	s.tasks = append(s.tasks, t)
 	s.mu.Unlock()
 	go func() {
@@ -188,8 +191,11 @@ func (s *Sim) current() *Task {
 		if id == s.rootGo {
 			panic("sched: scheduler goroutine called a parking operation")
 		}
-		// A goroutine started by the system under test.
-		t = &Task{ID: len(s.tasks), Name: fmt.Sprintf("ext%d", len(s.tasks)), external: true, Holding: map[string]int{}}
+		// A goroutine started by the system under test. Its id comes from a number space of its own: when
+		// it first gets here relative to the harness creating further tasks is up to the Go runtime, and
+		// ids order the pending list.
+		s.nExternal++
+		t = &Task{ID: 1000 + s.nExternal, Name: fmt.Sprintf("ext%d", s.nExternal), external: true, Holding: map[string]int{}}
 		s.tasks = append(s.tasks, t)
 		s.goids[id] = t
 	}
